@@ -191,10 +191,10 @@ def obligations(tier):
                 G.split, G.merge, G.state, G.update, G.clone, G.pop, G.iter_graph,
                 G._graph_pop, G._graph_update_dynamic, SL._split_state,
                 G._merge_to_flat_state)
-  nsrc, ndst = (3, 7) if quick else (4, 10)
+  nsrc, ndst = (3, 7) if quick else (4, 8)      # (4, 10) is ~3.5 h on 16 cores
   e = dict(s0=I(0, nsrc - 1), d0=I(0, ndst - 1), h0=B(), s1=I(0, nsrc - 1),
-           d1=I(0, ndst - 1), h1=I(0, 0) if quick else B(), s2=I(0, nsrc - 1),
-           d2=I(0, ndst - 1), h2=I(0, 0) if quick else B())
+           d1=I(0, ndst - 1), h1=I(0, 0), s2=I(0, nsrc - 1),
+           d2=I(0, ndst - 1), h2=I(0, 0))
   vs = dict(v0=I(-2, 2), v1=I(-2, 2), v2=I(-2, 2))
   nmax = 2           # thorough widens the node pools and merge orders instead
   return [
